@@ -18,8 +18,8 @@ Qed.
 (* A (path /from-A) looks up, B (path /from-B) looks up, A continues: A is redirected to B's URL *)
 Definition w_tmpl : uobj := [Lit (bs "http://new.example"); Slash; Hole].
 Lemma redirect_cross_talk_refuted_w :
-  exists sched, let '(_, ts) := run (rd_step w_tmpl) sched rd_start [rd_init (bs "/from-A") (bs "old.example"); rd_init (bs "/from-B") (bs "old.example")] in
-    rd_results ts = [Some (Ok (bs "http://new.example/from-B")); Some (Ok (bs "http://new.example/from-B"))]
+  exists sched, let '(_, ts) := run (rd_step_unrepaired w_tmpl) sched rd_start [rd_init_unrepaired (bs "/from-A") (bs "old.example"); rd_init_unrepaired (bs "/from-B") (bs "old.example")] in
+    rd_results_unrepaired ts = [Some (Ok (bs "http://new.example/from-B")); Some (Ok (bs "http://new.example/from-B"))]
     /\ rd_own w_tmpl (bs "/from-A") (bs "old.example") = bs "http://new.example/from-A".
 Proof. exists [0; 0; 0; 0; 1; 1; 1; 1; 0; 1]. vm_compute. split; reflexivity. Qed.
 
@@ -46,14 +46,14 @@ Qed.
 Lemma lookup_frame_l : forall hosts path host s r s',
   lookup hosts path host s = (Ok (Some r), s') ->
   (forall id, eq_rid id (lk_route r) = false -> lk_cursor s' id = lk_cursor s id) /\
-  (forall t, Nat.eqb t (lk_target r) = false -> lk_redirect s' t = lk_redirect s t).
+  lk_redirect s' = lk_redirect s.
 Proof.
   intros hosts path host s r s' H. unfold lookup in H.
   destruct (find_host path hosts 0) as [[id ro]|]; [|discriminate].
   destruct (pick_target ro (lk_cursor s id)) as [t| |]; try discriminate.
   inversion H; subst; clear H. cbn [lk_route lk_target lk_cursor lk_redirect]. split.
   - intros x Hx. destruct (Nat.eqb (r_ntargets ro) 1); [reflexivity|]. rewrite Hx. reflexivity.
-  - intros x Hx. destruct (r_redirect ro); [|reflexivity]. rewrite Hx. reflexivity.
+  - reflexivity.
 Qed.
 
 Lemma lookup_miss_no_effect_l : forall hosts path host s s',
@@ -208,56 +208,56 @@ Proof. intros. unfold rd_modify. cbn [rd_ptr rd_heap]. rewrite nth_error_mid, up
 
 (* one request alone, from any state of the shared target: it is answered with its own URL *)
 Lemma rd_solo : forall tmpl s p h,
-  iter_step (rd_step tmpl) 5 s (rd_init p h)
+  iter_step (rd_step_unrepaired tmpl) 5 s (rd_init_unrepaired p h)
   = ({| rd_heap := rd_heap s ++ [fill_host (fill (strip tmpl) p) h]; rd_ptr := Some (length (rd_heap s)) |},
      rd_done tmpl (p, h)).
 Proof.
   intros tmpl [heap ptr] p h. cbn [rd_heap]. unfold iter_step.
-  assert (E1 : rd_step tmpl {| rd_heap := heap; rd_ptr := ptr |} (rd_init p h)
-               = ({| rd_heap := heap ++ [tmpl]; rd_ptr := Some (length heap) |}, rd_goto (rd_init p h) DStrip)) by reflexivity.
+  assert (E1 : rd_step_unrepaired tmpl {| rd_heap := heap; rd_ptr := ptr |} (rd_init_unrepaired p h)
+               = ({| rd_heap := heap ++ [tmpl]; rd_ptr := Some (length heap) |}, rd_goto (rd_init_unrepaired p h) DStrip)) by reflexivity.
   rewrite E1.
-  assert (E2 : forall x, rd_step tmpl {| rd_heap := heap ++ [x]; rd_ptr := Some (length heap) |} (rd_goto (rd_init p h) DStrip)
-               = ({| rd_heap := heap ++ [strip x]; rd_ptr := Some (length heap) |}, rd_goto (rd_goto (rd_init p h) DStrip) DFill)).
-  { intros x. unfold rd_step. cbn [rd_at rd_goto]. apply rd_modify_at. }
+  assert (E2 : forall x, rd_step_unrepaired tmpl {| rd_heap := heap ++ [x]; rd_ptr := Some (length heap) |} (rd_goto (rd_init_unrepaired p h) DStrip)
+               = ({| rd_heap := heap ++ [strip x]; rd_ptr := Some (length heap) |}, rd_goto (rd_goto (rd_init_unrepaired p h) DStrip) DFill)).
+  { intros x. unfold rd_step_unrepaired. cbn [rd_at rd_goto]. apply rd_modify_at. }
   rewrite E2.
-  assert (E3 : forall x, rd_step tmpl {| rd_heap := heap ++ [x]; rd_ptr := Some (length heap) |} (rd_goto (rd_goto (rd_init p h) DStrip) DFill)
-               = ({| rd_heap := heap ++ [fill x p]; rd_ptr := Some (length heap) |}, rd_goto (rd_goto (rd_goto (rd_init p h) DStrip) DFill) DHost)).
-  { intros x. unfold rd_step. cbn [rd_at rd_goto]. apply (rd_modify_at (fun o => fill o p)). }
+  assert (E3 : forall x, rd_step_unrepaired tmpl {| rd_heap := heap ++ [x]; rd_ptr := Some (length heap) |} (rd_goto (rd_goto (rd_init_unrepaired p h) DStrip) DFill)
+               = ({| rd_heap := heap ++ [fill x p]; rd_ptr := Some (length heap) |}, rd_goto (rd_goto (rd_goto (rd_init_unrepaired p h) DStrip) DFill) DHost)).
+  { intros x. unfold rd_step_unrepaired. cbn [rd_at rd_goto]. apply (rd_modify_at (fun o => fill o p)). }
   rewrite E3.
-  assert (E4 : forall x, rd_step tmpl {| rd_heap := heap ++ [x]; rd_ptr := Some (length heap) |} (rd_goto (rd_goto (rd_goto (rd_init p h) DStrip) DFill) DHost)
-               = ({| rd_heap := heap ++ [fill_host x h]; rd_ptr := Some (length heap) |}, rd_goto (rd_goto (rd_goto (rd_goto (rd_init p h) DStrip) DFill) DHost) DRead)).
-  { intros x. unfold rd_step. cbn [rd_at rd_goto]. apply (rd_modify_at (fun o => fill_host o h)). }
+  assert (E4 : forall x, rd_step_unrepaired tmpl {| rd_heap := heap ++ [x]; rd_ptr := Some (length heap) |} (rd_goto (rd_goto (rd_goto (rd_init_unrepaired p h) DStrip) DFill) DHost)
+               = ({| rd_heap := heap ++ [fill_host x h]; rd_ptr := Some (length heap) |}, rd_goto (rd_goto (rd_goto (rd_goto (rd_init_unrepaired p h) DStrip) DFill) DHost) DRead)).
+  { intros x. unfold rd_step_unrepaired. cbn [rd_at rd_goto]. apply (rd_modify_at (fun o => fill_host o h)). }
   rewrite E4.
-  unfold rd_step. cbn [rd_at rd_goto rd_ptr rd_heap]. rewrite nth_error_mid. reflexivity.
+  unfold rd_step_unrepaired. cbn [rd_at rd_goto rd_ptr rd_heap]. rewrite nth_error_mid. reflexivity.
 Qed.
 
 (* redirect_serial_history_ok: ONE target kept across any serial history of requests, whatever the
    template and the state left behind by earlier requests: every request is answered with the URL it
    would get alone (its own path and Host substituted) *)
 Lemma redirect_serial_gen : forall tmpl reqs s pre,
-  snd (run (rd_step tmpl) (serial 5 (length pre) (length reqs)) s (pre ++ map (fun q => rd_init (fst q) (snd q)) reqs))
+  snd (run (rd_step_unrepaired tmpl) (serial 5 (length pre) (length reqs)) s (pre ++ map (fun q => rd_init_unrepaired (fst q) (snd q)) reqs))
   = pre ++ map (rd_done tmpl) reqs.
 Proof.
   intros tmpl reqs. induction reqs as [|[p h] reqs IH]; intros s pre; cbn [length serial map].
   - reflexivity.
   - rewrite run_app, run_repeat_mid. cbn [fst snd]. rewrite rd_solo.
-    replace (pre ++ rd_done tmpl (p, h) :: map (fun q => rd_init (fst q) (snd q)) reqs)
-      with ((pre ++ [rd_done tmpl (p, h)]) ++ map (fun q => rd_init (fst q) (snd q)) reqs) by (rewrite <- app_assoc; reflexivity).
+    replace (pre ++ rd_done tmpl (p, h) :: map (fun q => rd_init_unrepaired (fst q) (snd q)) reqs)
+      with ((pre ++ [rd_done tmpl (p, h)]) ++ map (fun q => rd_init_unrepaired (fst q) (snd q)) reqs) by (rewrite <- app_assoc; reflexivity).
     replace (S (length pre)) with (length (pre ++ [rd_done tmpl (p, h)])) by (rewrite app_length; cbn; lia).
     rewrite IH. rewrite <- app_assoc. reflexivity.
 Qed.
 
 Theorem redirect_serial_history_ok_l : forall tmpl reqs,
-  rd_results (snd (run (rd_step tmpl) (serial 5 0 (length reqs)) rd_start (map (fun q => rd_init (fst q) (snd q)) reqs)))
+  rd_results_unrepaired (snd (run (rd_step_unrepaired tmpl) (serial 5 0 (length reqs)) rd_start (map (fun q => rd_init_unrepaired (fst q) (snd q)) reqs)))
   = map (fun q => Some (Ok (rd_own tmpl (fst q) (snd q)))) reqs.
 Proof.
   intros tmpl reqs. pose proof (redirect_serial_gen tmpl reqs rd_start []) as H. cbn [app length] in H.
-  rewrite H. unfold rd_results. rewrite map_map. reflexivity.
+  rewrite H. unfold rd_results_unrepaired. rewrite map_map. reflexivity.
 Qed.
 
 Example redirect_serial_nonvacuous :
-  rd_results (snd (run (rd_step [Lit (bs "https://"); HHole; Slash; Hole]) (serial 5 0 2) rd_start
-                       [rd_init (bs "/x") (bs "a.example.com"); rd_init (bs "/y") (bs "b.example.org")]))
+  rd_results_unrepaired (snd (run (rd_step_unrepaired [Lit (bs "https://"); HHole; Slash; Hole]) (serial 5 0 2) rd_start
+                       [rd_init_unrepaired (bs "/x") (bs "a.example.com"); rd_init_unrepaired (bs "/y") (bs "b.example.org")]))
   = [Some (Ok (bs "https://a.example.com/x")); Some (Ok (bs "https://b.example.org/y"))].
 Proof. vm_compute. reflexivity. Qed.
 (* ------------------------------------------------------------------ consecutive cursor values => exact shares *)
@@ -330,3 +330,64 @@ Qed.
 Example rr_exact_shares_nonvacuous :
   positions 3 (consecutive 7 6) = [1; 2; 0; 1; 2; 0] /\ count_nat 2 (positions 3 (consecutive 7 (2 * 3))) = 2.
 Proof. vm_compute. split; reflexivity. Qed.
+
+(* ------------------------------------------------------------------ redirect, the code as it is (fix ddf101c) *)
+Definition rq_ok (tmpl : uobj) (l : rq_local) : Prop :=
+  match rq_at l with
+  | DAlloc => rq_got l = None
+  | DStrip => rq_got l = None /\ rq_obj l = tmpl
+  | DFill => rq_got l = None /\ rq_obj l = strip tmpl
+  | DHost => rq_got l = None /\ rq_obj l = fill (strip tmpl) (rq_path l)
+  | DRead => rq_got l = None /\ rq_obj l = fill_host (fill (strip tmpl) (rq_path l)) (rq_host l)
+  | DDone => rq_got l = Some (Ok (rd_own tmpl (rq_path l) (rq_host l)))
+  end.
+
+Lemma rd_step_ok : forall tmpl s l, rq_ok tmpl l ->
+  fst (rd_step tmpl s l) = s /\ rq_ok tmpl (snd (rd_step tmpl s l))
+  /\ rq_path (snd (rd_step tmpl s l)) = rq_path l /\ rq_host (snd (rd_step tmpl s l)) = rq_host l.
+Proof.
+  intros tmpl s l H. unfold rd_step, rq_ok in *. destruct (rq_at l) eqn:E; cbn [fst snd rq_set rq_at rq_got rq_obj rq_path rq_host].
+  - repeat split.
+  - destruct H as [H1 H2]. rewrite H2. repeat split.
+  - destruct H as [H1 H2]. rewrite H2. repeat split.
+  - destruct H as [H1 H2]. rewrite H2. repeat split.
+  - destruct H as [H1 H2]. rewrite H2. repeat split.
+  - rewrite E. repeat split. assumption.
+Qed.
+
+Lemma Forall_upd' : forall {A} (P : A -> Prop) l i v, Forall P l -> P v -> Forall P (upd l i v).
+Proof.
+  intros A P l. induction l as [|a l IH]; intros [|i] v H Hv; cbn; try assumption;
+    inversion H; subst; constructor; auto.
+Qed.
+
+(* redirect_every_schedule: since the URL is built on a per-request copy, under EVERY schedule, any number
+   of requests, any template: the shared state is never written, and a request that has been answered got
+   the URL made from ITS path and Host *)
+Theorem redirect_every_schedule_l : forall tmpl sched s ts, Forall (rq_ok tmpl) ts ->
+  fst (run (rd_step tmpl) sched s ts) = s /\ Forall (rq_ok tmpl) (snd (run (rd_step tmpl) sched s ts)).
+Proof.
+  intros tmpl sched. induction sched as [|i sched IH]; intros s ts H; cbn [run]; [split; [reflexivity|assumption]|].
+  unfold step1. destruct (nth_error ts i) as [l|] eqn:E; [|apply IH; assumption].
+  assert (Hl : rq_ok tmpl l) by (eapply (proj1 (Forall_forall _ _) H); eapply nth_error_In; eassumption).
+  destruct (rd_step_ok tmpl s l Hl) as (S1 & S2 & _). destruct (rd_step tmpl s l) as [s' l']. cbn [fst snd] in *. subst s'.
+  apply IH. now apply Forall_upd'.
+Qed.
+
+Theorem redirect_every_schedule_results_l : forall tmpl sched reqs,
+  let r := run (rd_step tmpl) sched rd_start (map (fun q => rd_init (fst q) (snd q)) reqs) in
+  fst r = rd_start /\
+  Forall (fun l => rq_at l = DDone -> rq_got l = Some (Ok (rd_own tmpl (rq_path l) (rq_host l)))) (snd r).
+Proof.
+  intros tmpl sched reqs. cbv zeta.
+  assert (H : Forall (rq_ok tmpl) (map (fun q => rd_init (fst q) (snd q)) reqs)).
+  { apply Forall_forall. intros x Hx. apply in_map_iff in Hx. destruct Hx as [q [<- _]]. reflexivity. }
+  destruct (redirect_every_schedule_l tmpl sched rd_start _ H) as [A B]. split; [assumption|].
+  eapply Forall_impl; [|exact B]. intros l Hl D. unfold rq_ok in Hl. rewrite D in Hl. assumption.
+Qed.
+
+Example redirect_every_schedule_nonvacuous :
+  rd_results (snd (run (rd_step w_tmpl) [0; 0; 0; 0; 1; 1; 1; 1; 0; 1] rd_start
+                       [rd_init (bs "/from-A") (bs "old.example"); rd_init (bs "/from-B") (bs "old.example")]))
+  = [Some (Ok (bs "http://new.example/from-A")); Some (Ok (bs "http://new.example/from-B"))].
+Proof. vm_compute. reflexivity. Qed.
